@@ -594,3 +594,93 @@ def check_zip_alignment(ctx, fi, rule='R-ALIGN/zip-lockstep'):
                f'`{unparse(z)[:60]}` pairs lists that are not in the same '
                f'order: {why}')
     return n
+
+
+_READS = {'open', 'File', 'read_csv', 'read_text', 'read_bytes', 'load',
+          'loads_file', 'read_h5ad', 'read_df_from_h5ad',
+          'read_uns_from_h5ad', 'genfromtxt', 'loadtxt', 'fromfile'}
+_MEMO_DECORATORS = {'lru_cache', 'cache', 'cached', 'memoize', 'memoized',
+                    'cached_property'}
+
+
+def _decorator_name(d):
+    if isinstance(d, ast.Call):
+        d = d.func
+    if isinstance(d, ast.Attribute):
+        return d.attr
+    if isinstance(d, ast.Name):
+        return d.id
+    return None
+
+
+def check_memo_of_outside_state(ctx, fi,
+                                rule='R-MEMO/outside-state-not-in-key'):
+    """a memo that lives as long as the process (functools.lru_cache /
+    cache on the function, or a module-level table it fills) hands back
+    what it computed the first time for equal arguments.  A function that
+    reads a file computes from the file's contents, which are not among
+    its arguments: the second taxonomy / the rewritten CSV under the same
+    path is answered with the first one's contents."""
+    memo = [d for d in fi.node.decorator_list
+            if _decorator_name(d) in _MEMO_DECORATORS]
+    tables = set()
+    tree = fi.module.tree
+    for st in tree.body:
+        if isinstance(st, ast.Assign) and len(st.targets) == 1 \
+                and isinstance(st.targets[0], ast.Name):
+            v = st.value
+            if isinstance(v, ast.Dict) or (
+                    isinstance(v, ast.Call) and getattr(
+                        v.func, 'id', getattr(v.func, 'attr', None))
+                    in ('dict', 'OrderedDict', 'defaultdict')):
+                tables.add(st.targets[0].id)
+    local = {a.arg for a in fi.node.args.posonlyargs + fi.node.args.args
+             + fi.node.args.kwonlyargs}
+    for st in ast.walk(fi.node):
+        if isinstance(st, ast.Assign):
+            for t in st.targets:
+                if isinstance(t, ast.Name):
+                    local.add(t.id)
+    stores = []
+    for st in ast.walk(fi.node):
+        if isinstance(st, ast.Assign) and isinstance(
+                st.targets[0], ast.Subscript):
+            b = st.targets[0].value
+            if isinstance(b, ast.Name) and b.id in tables \
+                    and b.id not in local:
+                stores.append(st)
+    if not memo and not stores:
+        return 0
+    reads = []
+    seen = set()
+    todo = [fi]
+    while todo:
+        f = todo.pop()
+        if f.qual in seen:
+            continue
+        seen.add(f.qual)
+        for c in ast.walk(f.node):
+            if isinstance(c, ast.Call):
+                nm = getattr(c.func, 'attr', getattr(c.func, 'id', None))
+                if nm in _READS and not (
+                        nm in ('load', 'loads_file')
+                        and not isinstance(c.func, ast.Attribute)):
+                    reads.append((f, c))
+        if len(seen) < 12:
+            for t in ctx.cg.edges.get(f.qual, ()):
+                g = ctx.db.functions.get(t)
+                if g is not None:
+                    todo.append(g)
+    ctx.touch(fi)
+    what = (f'@{unparse(memo[0])[:40]}' if memo else
+            f'the module-level table `{stores[0].targets[0].value.id}`')
+    ok = not reads
+    where = memo[0] if memo else stores[0]
+    ctx.ob(rule, f'{fi.qual}:memo', fi.loc(where), ok,
+           'the memoised function reads no file' if ok else
+           f'{what} keeps the result of {fi.name} for the life of the '
+           f'process, keyed by its arguments; the result is read from a '
+           f'file (`{unparse(reads[0][1])[:50]}` in {reads[0][0].qual}) '
+           'whose contents are not part of the key: another file written '
+           'under the same path is answered with the first one\'s contents')
+    return 1
